@@ -129,10 +129,11 @@ def mut_ops(reduced=False):
     return out
 
 
-def pairs():
-    """every mutator x every argument choice x q1 (or none) x q2"""
+def pairs(n_q1=None):
+    """every mutator x every argument choice x q1 (or none) x q2; n_q1 limits the q1 forms (quick tier)"""
+    q1s = [None, *QUERIES] if n_q1 is None else [None, *QUERIES[:n_q1]]
     for mop in mut_ops():
-        for q1 in [None, *QUERIES]:
+        for q1 in q1s:
             for q2 in QUERIES:
                 mid = ([q1] if q1 else []) + [mop, q2]
                 yield {"ops": BASE + mid + BATTERY, "check_from": len(BASE), "stratum": "pair",
